@@ -511,7 +511,7 @@ func genGraph(r *rand.Rand, s *gSchema, p *profile) *gGraph {
 					if chance(r, 0.3) {
 						v = valueFor(f.ty, 0)
 					}
-					b = sx.L("fail", sx.A(r.Intn(3)), v)
+					b = sx.L("fail", sx.A(r.Intn(4)), v)
 				default:
 					b = sx.L("const", valueFor(f.ty, 0))
 				}
@@ -663,6 +663,12 @@ func (d *docGen) dirs() []sx.S {
 	if n == 2 {
 		d.feats["two-directives"] = true
 	}
+	if chance(r, 0.25) {
+		// the schema's own directive, in front of, between or behind the others
+		i := 1 + r.Intn(len(out))
+		out = append(out[:i], append([]sx.S{sx.L("d", "8", "-")}, out[i:]...)...)
+		d.feats["schema-directive"] = true
+	}
 	return out
 }
 
@@ -733,6 +739,21 @@ func (d *docGen) sels(container int, depth int) []sx.S {
 			ct := container
 			if poss := d.s.possible(container); len(poss) > 0 && chance(r, 0.4) {
 				ct = pick(r, poss)
+			}
+			if d.p.defect == "" && chance(r, 0.3) {
+				// a fragment that is already complete (defined for another selection set, possibly inside
+				// another fragment) is spread here again
+				var same []sx.S
+				for _, fr := range d.frags {
+					if fl := sx.List(fr); len(fl) > 2 && fl[2].(string) == sx.A(ct) {
+						same = append(same, fl[1])
+					}
+				}
+				if len(same) > 0 {
+					out = append(out, sx.L("fr", d.id(), same[r.Intn(len(same))], d.dirs()))
+					d.feats["fragment-shared"] = true
+					continue
+				}
 			}
 			d.nfrag++
 			name := d.nfrag
